@@ -228,7 +228,8 @@ func c06Family2(c M) M {
 }
 
 var c06Alphabet = []string{"a", "b", "s", "A", "S", "z", "_", "0", "1", "9", " ", "\t", "\n", "'", "'", "\"", "\"", "\\", "\\",
-	"n", ".", ",", ";", "-", "/", "*", "(", ")", "=", "$", ":", "é", "日", "�", "µ", "K", "\x7f", "\x01"}
+	"n", ".", ",", ";", "-", "/", "*", "(", ")", "=", "$", ":", "é", "日", "�", "µ", "K", "\x7f", "\x01",
+	"\ufeff", "\u00a0", "\u2028", "\u0085", "\u200b", "\U0010ffff", "%", "%s", "\v", "\f", "\b"}
 var c06Bad = []string{"\r", "\x00", "\xff", "\xc0", "\r\n"}
 var c06Words = []string{"select", "FROM", "Limit", "as", "time", "true", "or", "' --", "\\'", "\\\"", "';", "\";", "/*", "*/", "--", "$p"}
 
@@ -251,10 +252,108 @@ func c06Random(rng *rand.Rand, expressible bool) string {
 	return b.String()
 }
 
+// c06Placeholder stands for "some non-ASCII character" in the records of a rune sweep.
+const c06Placeholder = "é"
+
+func c06Subst(v interface{}, from, to string) interface{} {
+	switch x := v.(type) {
+	case string:
+		return strings.Replace(x, from, to, -1)
+	case []interface{}:
+		a := make([]interface{}, len(x))
+		for i, e := range x {
+			a[i] = c06Subst(e, from, to)
+		}
+		return a
+	case M:
+		m := M{}
+		for k, e := range x {
+			m[k] = c06Subst(e, from, to)
+		}
+		return m
+	}
+	return v
+}
+
+func c06Shape(shape string, r rune) string {
+	x := string(r)
+	switch shape {
+	case "solo":
+		return x
+	case "first":
+		return x + "a"
+	case "last":
+		return "a" + x
+	case "esc":
+		return "a\\" + x
+	case "q":
+		return "'" + x + "\""
+	}
+	return "a" + x + "b"
+}
+
+// c06Sweep runs the first family on the framed string for every code point of the block and
+// returns one record per maximal run of code points with the same observation (non-ASCII code
+// points written as the placeholder).  Nothing is judged here: the runs are what Judge_c06 reads.
+func c06Sweep(c M) M {
+	sw := list(c["sweep"])
+	lo, hi := rune(num(sw[0])), rune(num(sw[1]))
+	shape := str(c["shape"])
+	type run struct {
+		lo, hi rune
+		n      int
+		inp    []interface{}
+		obs    M
+		key    string
+	}
+	var runs []*run
+	for r := lo; r <= hi; r++ {
+		if r >= 0xD800 && r <= 0xDFFF {
+			continue // not scalar values: no Go string holds them
+		}
+		s := c06Shape(shape, r)
+		inp := c06Chars(s)
+		o := c06Family1(M{"inp": inp})
+		if r >= 0x80 {
+			inp = c06Subst(inp, string(r), c06Placeholder).([]interface{})
+			o = c06Subst(o, string(r), c06Placeholder).(M)
+		}
+		kb, _ := json.Marshal([]interface{}{inp, o})
+		key := string(kb)
+		if n := len(runs); n > 0 && runs[n-1].key == key {
+			runs[n-1].hi = r
+			runs[n-1].n++
+			continue
+		}
+		runs = append(runs, &run{lo: r, hi: r, n: 1, inp: inp, obs: o, key: key})
+	}
+	if len(runs) == 0 {
+		return M{"empty": true}
+	}
+	out := M{}
+	for k, v := range runs[0].obs {
+		out[k] = v
+	}
+	c["inp"] = runs[0].inp
+	c["sweep"] = []interface{}{int(runs[0].lo), int(runs[0].hi)}
+	out["runlen"] = runs[0].n
+	rest := []interface{}{}
+	for _, u := range runs[1:] {
+		rest = append(rest, M{"inp": u.inp, "obs": u.obs, "sweep": []interface{}{int(u.lo), int(u.hi)}, "runlen": u.n})
+	}
+	if len(rest) > 0 {
+		out["rest"] = rest
+	}
+	return out
+}
+
 func init() {
 	register("c06", &Suite{Run: func(c M) M {
 		if _, ok := c["tpl"]; ok {
 			return c06Family2(c)
+		}
+		if _, ok := c["sweep"]; ok {
+			return c06Sweep(c)
 		}
 		return c06Family1(c)
 	}})
